@@ -17,7 +17,7 @@ pub fn check() -> Check {
         spec: CheckSpec {
             id: "C17",
             level: "exploration",
-            rule: "one case = one open/use/close cycle on a store directory that lives across the cycles of a worker: configuration drawn from {merge timer an hour away, 1-5 ms merge timer with triggers exceeded so that merges run (their writes delayed by the shim so that the drop can land inside one), 1-5 ms interval sync}; some sets/deletes (model kept across cycles); the owning object is dropped after a seeded 0-10 ms pause while 1-3 handle clones are kept. Oracle: every set/get/del/merge through a kept handle returns the 'closed' error, and between the begin and end marks of such a call the shim logs no directory-changing call by the calling thread; the directory is opened again at once (before the old background thread has gone) and every key reads as the model says; the thread named bitcask-backgro* of the closed instance is gone within 5 s although its next timer may be an hour away; after every 25 cycles, with all handles dropped, the number of background threads and of open file descriptors is back at the worker's baseline. Non-trivial/distinct = distinct (configuration kind, pause, drop landed during background activity or not, ops) cycles; cycles whose drop landed while the background thread was inside a merge are counted from the shim log.",
+            rule: "one case = one open/use/close cycle on a store directory that lives across the cycles of a worker: configuration drawn from {merge timer an hour away, 1-5 ms merge timer with triggers exceeded so that merges run (their writes delayed by the shim so that the drop can land inside one), 1-5 ms interval sync}; some sets/deletes (model kept across cycles); in a quarter of the quiet cycles a last merge or set in which one write or create fails with ENOSPC (the writer is then closed in the state a failed operation leaves it in); the owning object is dropped after a seeded 0-10 ms pause while 1-3 handle clones are kept. Oracle: every set/get/del/merge through a kept handle returns the 'closed' error, and between the begin and end marks of such a call the shim logs no directory-changing call by the calling thread; the directory is opened again at once (before the old background thread has gone) and every key reads as the model says; the thread named bitcask-backgro* of the closed instance is gone within 5 s although its next timer may be an hour away; after every 25 cycles, with all handles dropped, the number of background threads and of open file descriptors is back at the worker's baseline. Non-trivial/distinct = distinct (configuration kind, pause, drop landed during background activity or not, ops) cycles; cycles whose drop landed while the background thread was inside a merge are counted from the shim log.",
             assumptions: vec!["thread identity comes from /proc/self/task/*/comm, descriptors from /proc/self/fd", "5 s for the worker thread to go is wall clock with slack (it takes well under 10 ms here)"],
             death_is_violation: true,
         },
@@ -166,6 +166,20 @@ fn worker(ctx: &Ctx, out: &mut Out) {
                 model.remove(&k);
             }
         }
+        // a quarter of the quiet cycles: the last thing before the drop is an operation in which one
+        // file-system call fails (a merge, or a set of a key outside the model), so that the store
+        // is closed in whatever state a failed operation leaves its writer in
+        let mut failed_before_drop = false;
+        if kind != 1 && r.chance(1, 4) {
+            shim::fail(C_WRITE | C_CREATE, F_ANY, r.below(3) as i64, libc::ENOSPC);
+            let res = if r.chance(1, 2) { st.merge().map_err(|e| format!("{:?}", e)) } else { st.set(b"\x03outside-the-model", &make_value(&mut r, 0, 600)).map_err(|e| format!("{:?}", e)) };
+            failed_before_drop = shim::fail_hit().is_some();
+            shim::fail_off();
+            if failed_before_drop {
+                out.count("cycles_with_a_failed_operation_before_the_drop", 1);
+            }
+            let _ = res;
+        }
         let clones: Vec<_> = (0..r.range(1, 3)).map(|_| st.h.clone()).collect();
         let pause_us = *r.pick(&[0u64, 0, 200, 1000, 3000, 10_000]);
         if pause_us > 0 {
@@ -291,7 +305,7 @@ fn worker(ctx: &Ctx, out: &mut Out) {
         out.evaluations += 1;
         out.count("cycles", 1);
         out.count(["cycles_merge_timer_far_away", "cycles_merging", "cycles_interval_sync", "cycles_sync_timer_far_away", "cycles_both_timers_far_away"][kind], 1);
-        out.class(format!("k{}-p{}-bg{}-n{}-i{}", kind, pause_us, (bg_during_drop > 0) as u8, nops, conf.interval_ms.min(9)));
+        out.class(format!("k{}-p{}-bg{}-n{}-i{}-f{}", kind, pause_us, (bg_during_drop > 0) as u8, nops, conf.interval_ms.min(9), failed_before_drop as u8));
         // sometimes keep a handle around for longer
         let mut clones = clones;
         if r.chance(1, 10) {
